@@ -394,6 +394,35 @@ func (cc *checkCtx) confirm(o *Obligation, rio *replayIO, out string) (bool, str
 	if strings.HasPrefix(o.Kind, "safe-") {
 		return false, "safety obligation failed in the model but the real code did not panic on the model's input"
 	}
+	fixes := cc.resultFixes(o, rio, out)
+	q := m.queryOf[o]
+	i := strings.LastIndex(q, "(check-sat)")
+	if i < 0 {
+		return false, "no query"
+	}
+	q2 := q[:i] + strings.Join(fixes, "\n") + "\n(check-sat)\n"
+	res := cc.s.smt.solve(q2, o.Name()+"#confirm")
+	switch res.Status {
+	case "sat":
+		return true, "clause evaluated on the real code's concrete inputs and outputs: violated (" + res.Backend + ")"
+	case "unsat":
+		return false, "ENGINE-MISMATCH: the real code's outputs on the model's input do not reproduce the symbolic path (or the clause holds concretely)"
+	}
+	return false, "confirmation query undecided: " + res.Status
+}
+
+func grepLine(out, key string) string {
+	for _, l := range strings.Split(out, "\n") {
+		if strings.Contains(l, key) {
+			return strings.TrimSpace(l)
+		}
+	}
+	return ""
+}
+
+// resultFixes: SMT assertions fixing the inputs to the model and the symbolic results to the concrete outputs.
+func (cc *checkCtx) resultFixes(o *Obligation, rio *replayIO, out string) []string {
+	m := cc.s.m
 	var fixes []string
 	fixes = append(fixes, rio.fixes...)
 	for _, line := range strings.Split(out, "\n") {
@@ -461,27 +490,5 @@ func (cc *checkCtx) confirm(o *Obligation, rio *replayIO, out string) (bool, str
 			}
 		}
 	}
-	q := m.queryOf[o]
-	i := strings.LastIndex(q, "(check-sat)")
-	if i < 0 {
-		return false, "no query"
-	}
-	q2 := q[:i] + strings.Join(fixes, "\n") + "\n(check-sat)\n"
-	res := cc.s.smt.solve(q2, o.Name()+"#confirm")
-	switch res.Status {
-	case "sat":
-		return true, "clause evaluated on the real code's concrete inputs and outputs: violated (" + res.Backend + ")"
-	case "unsat":
-		return false, "ENGINE-MISMATCH: the real code's outputs on the model's input do not reproduce the symbolic path (or the clause holds concretely)"
-	}
-	return false, "confirmation query undecided: " + res.Status
-}
-
-func grepLine(out, key string) string {
-	for _, l := range strings.Split(out, "\n") {
-		if strings.Contains(l, key) {
-			return strings.TrimSpace(l)
-		}
-	}
-	return ""
+	return fixes
 }
